@@ -186,8 +186,11 @@ def cull_sweep(tier, seed=0):
                             if isinstance(layer, Blockwise):
                                 out_keys = {k for k in layer.get_output_keys()}
                                 sel = set(rnd.sample(sorted(out_keys, key=str), max(1, len(out_keys) // 2)))
-                                culled, deps = layer.cull(sel, set(full))
+                                culled, deps = layer.cull(sel, set(full))   # (the layer was materialised by dict(hlg) above)
                                 mat = dict(culled)
+                                if set(mat) != set(sel) or set(culled.get_output_keys()) != set(sel):
+                                    msg = f"Blockwise.cull to {len(sel)} output keys of {lname}: the culled layer materialises {len(mat)} tasks and reports {len(culled.get_output_keys())} output keys"
+                                    break
                                 for k in sel:
                                     real = set(get_dependencies({**full, **mat}, k))
                                     if set(deps.get(k, ())) != real:
@@ -236,6 +239,9 @@ def cull_sweep(tier, seed=0):
                             for sel in [set(out_keys[:1]), set(out_keys[-1:]), set(out_keys[1:2]) or set(out_keys[:1]), set(rnd.sample(out_keys, max(1, len(out_keys) // 2)))]:
                                 culled, deps = layer.cull(sel, set(fullopt))
                                 mat = dict(culled)
+                                if set(mat) != set(sel) or set(culled.get_output_keys()) != set(sel):
+                                    msg = f"fused Blockwise.cull to {len(sel)} output keys of {lname}: the culled layer materialises {len(mat)} tasks and reports {len(culled.get_output_keys())} output keys"
+                                    break
                                 for k in sel:
                                     real = set(get_dependencies({**fullopt, **mat}, k))
                                     if set(deps.get(k, ())) != real:
